@@ -434,6 +434,13 @@ class Ops:
         tvs = [tv_of(v) for v in vals]
         if any(t is None for t in tvs):
             return TV(kind="pybool", dtype="Bool")
+        notes = {t.note for t in tvs}
+        if isinstance(op, ast.Or) and len(tvs) == 2 and {n_.split("?")[0] for n_ in notes} == {"anynan", "anyinf"} and len({n_.split("?", 1)[1] for n_ in notes}) == 1:
+            # any(isnan(x)) or any(isinf(x)): "some entry of x is not finite" — the whole question, asked negatively
+            org = next(iter(notes)).split("?", 1)[1]
+            if org == "matrix":
+                self.ev("finite_check", node)
+            return TV(kind="pybool", dtype="Bool", note="allfinite?" + org + "|neg", origin=frozenset().union(*(t.origin for t in tvs)))
         out = tvs[0]
         for t in tvs[1:]:
             out = self.elementwise(out, t, "mul", node).but(deg=F0)
